@@ -35,6 +35,11 @@ CHECKS = {
   text="Theorem trace_wellformed: for every lifecycle shape satisfying `good` and every fault plan — any number of nodes, a failure at any node or during node construction, of Exception class or BaseException class — the emitted stream is exactly pipeline_start, one SER per started node (all succeeded but a final failing one), one pipeline_end that is ok iff the run returned; the original exception reaches the caller; the driver is closed (corollaries bracketed, always_closed). The shape is re-extracted from SemantivaOrchestrator.execute on every run and `shape.good` re-decided. Real traced runs inject a fault at every node index for every failure kind (processor exception, KeyboardInterrupt, unresolvable parameter, type gate, undeclared write, two construction errors) across detail levels and file/directory output; the record sequence is compared with the model run on the same plan, and ids, upstream lists vs canonical edges, schema validity of every line, the exception class and the closed file are checked on the real output.",
   note="Trusted: Lean kernel; the lexical extractor in props/tracegen.py (conservative: a construct it does not recognise yields `false`); jsonschema validation of emitted lines is support, not proof; a fault is abstracted to (position, exception class).",
   design="§7 C06"),
+ "C07": dict(
+  technique="Lean 4 proof over the reference execution model (delta = set difference of the two contexts; recorded parameter/source = the node's own resolution under every table satisfying the documented precedence; chain of digest pre-images by induction over the pipeline; UTC stamps) + side conditions re-decided on the source table and clock conventions probed from the real code + differential run of the model's SER views vs real SER lines + real-code oracle against an independent execution log under four host time zones",
+  text="Theorems created_iff / updated_iff / delta_sorted / created_updated_disjoint (the recorded delta is exactly the difference between the contexts), recorded_iff_resolved / unrecorded_iff_unresolved (the SER lists parameter p with value v and source ch exactly when the node's resolution passes v from channel ch, for every source table satisfying the documented precedence), missing_iff_unresolved, required_present_iff, writes_realized, typeOk_iff (checks report PASS exactly when the condition holds), stream_chain / digest_chain (node k's output content is node k+1's input content for pipelines of any length, so content digests chain), stream_shape (one SER per node entered, only the last may be an error), stamps_true / stamps_monotone / local_stamp_wrong (UTC generators denote the reading whatever the host offset). The SER source table and the two clock conventions are re-probed from /repo on every run and precedenceOK / UTC are re-decided. The model's SER views are compared with the real SER lines on generated pipelines; every SER field is judged against a reference log taken at node.process and at the node's parameter fetch, under TZ in {UTC,+09:00,-08:00,+05:45} x four detail levels.",
+  note="Trusted: Lean kernel; the recorders in props/serlog.py (they wrap public node entry points); SHA-256 and the byte serialisation feeding it are outside the model (digest equality is observed per content, and proved only for 'any function of content'); in-place mutation of a context value by a processor is outside the harness' component library; adapter classes report module 'abc' in processor.ref and this is accepted as the class's own name.",
+  design="§7 C07"),
  "C08": dict(
   technique="Lean 4 proof over a hand-written executable model (index formula of the Cartesian product via uniform-chunk flatMap indexing; planned size = materialised size by induction over blocks) + differential run real expand_run_space vs compiled Lean model + subprocess cap-promptness runs",
   text="Theorems sortCols_sorted (keys in sorted order, none lost), expandComb_length / expandComb_getElem? / expandComb_keys (product size, last-key-fastest order as an index recursion, every run carries exactly the keys), expandPosN_getElem?, posSize_ok_iff / posSize_mismatch (aligned positions, unequal lengths rejected), blockRuns_length and combineRuns_length (the arithmetic plan equals the number of runs materialised, for any number of blocks), expand_of_plan / expand_ok_le_cap (the max-runs error is raised exactly when the planned total exceeds the cap, decided before anything is materialised), expand_validation_error. The model is tied to /repo by running the real expand_run_space (dataclass door and YAML door, files in four formats with select/rename) and the Lean model on the same generated specs and comparing ordered run lists / error classes; promptness is observed on specs with up to 1.6e13 planned runs under an address-space and time limit.",
